@@ -156,6 +156,7 @@ func DrawFrameSpec(t *rapid.T, p FrameParams) FrameSpec {
 			continue
 		}
 		produced := 0
+		noFinal := false
 		ns := rapid.IntRange(0, 8).Draw(t, "nseqs")
 		for si := 0; si < ns && produced < budget; si++ {
 			var s SeqSpec
@@ -208,6 +209,16 @@ func DrawFrameSpec(t *rapid.T, p FrameParams) FrameSpec {
 				produced += s.MLen
 			}
 			b.Seqs = append(b.Seqs, s)
+			if s.Off == 0 {
+				// no match was possible: a literals-only sequence can only be the last one of a block
+				noFinal = true
+				break
+			}
+		}
+		if noFinal {
+			total += produced
+			f.Blocks = append(f.Blocks, b)
+			continue
 		}
 		// final literals-only sequence
 		last := SeqSpec{LitN: rapid.SampledFrom([]int{0, 1, 5, 12, 20}).Draw(t, "lastlit"), LitSeed: rapid.Uint64().Draw(t, "lastseed"), LitKind: "text"}
